@@ -154,7 +154,7 @@ def z5(run: Run, prog: Program):
                             f"sum a_ij a_ik a_jk is not what is computed")
     run.oblige("Z5", "ResNetwork:no-conjugating-products", True, nontrivial=True,
                sample={"calls_scanned": n})
-    run.floor("Z5 calls scanned", n, 30)
+    run.floor("Z5 calls scanned", n, 30, hard=True)
 
 
 def check(run: Run, prog: Program, cy: CyProgram, sites):
